@@ -25,6 +25,8 @@ HARNESS_FLAGS = {
     'wipe':  {'cxx': 'g++', 'cxxflags': '-std=gnu++17 -O1 -g', 'ldflags': '', 'libs': '-lrapidcheck -lutf8proc -lpthread'},
 }
 
+WRAP_LD = '-Wl,' + ','.join('--wrap=' + f for f in ('malloc', 'free', 'time', 'getenv', 'secure_getenv', 'rand', 'random', 'getrandom', 'getentropy', 'arc4random', 'arc4random_buf', 'clock_gettime', 'gettimeofday', 'fopen'))
+
 COMMON_ASSUME = [
     'clang/gcc, AddressSanitizer/UBSan and rapidcheck/libFuzzer behave as documented',
     'libutf8proc 2.8 (Unicode 14) is a correct NFC/NFKD implementation (cross-checked against Python unicodedata on the word-list alphabet at setup)',
@@ -111,17 +113,18 @@ prop('C04', src='props/c04_keygen.cpp',
      level_text='Every generated case checks all seven KDF arguments against the published formula and path-independence; the key buffer is either inaccessible (any library read/write faults) or compared byte-for-byte with the stub output. Sampling: exploration.')
 
 prop('C10', src='props/c10_features.cpp',
-     plan={'quick': [{'variant': 'asan', 'workers': 16}], 'thorough': [{'variant': 'asan', 'workers': 16}, {'variant': 'rel', 'workers': 16}]},
+     plan={'quick': [{'variant': 'asan', 'workers': 16}, {'variant': 'rel', 'workers': 16, 'scale': 0.5}], 'thorough': [{'variant': 'asan', 'workers': 16}, {'variant': 'rel', 'workers': 16}]},
+     variant_flags={'rel': {'cxxflags': '-DVERIF_WRAP', 'ldflags': WRAP_LD}},
      rule='(1) exhaustive core: enabling argument in {0..7, 8, 16, 24, 0xF8|k, 0xFFFFFFF8|k} (27 values) x feature value 0..31 x create-argument with/without high bits x 2 languages, each through four entry points (create, load of the model image, decode_explicit and decode of the specification phrase) plus wrong-check-value variants (CHECKSUM must precede UNSUPPORTED); default state probed before the first enabling call; '
-          '(2) rapidcheck histories of 1-6 enabling calls. Oracle: return = popcount(arg & 7); accepted iff f & ~(m|16) == 0 with m = last arg & 7, else UNSUPPORTED with no block left allocated; create stores exactly arg & 7; get_feature(q) = f & q & 7 for q in 0..31 and with high bits; is_encrypted = bit 4; features survive phrase/storage round trips; crypt toggles only bit 4. Every case non-trivial.',
+          '(2) rapidcheck histories of 1-6 enabling calls. Oracle: return = popcount(arg & 7); accepted iff f & ~(m|16) == 0 with m = last arg & 7, else UNSUPPORTED with no block left allocated; create stores exactly arg & 7; get_feature(q) = f & q & 7 for q in 0..31 and with high bits; is_encrypted = bit 4; features survive phrase/storage round trips; crypt toggles only bit 4. The gcc -O2 --wrap build repeats the cases with getenv/secure_getenv interposed: every environment variable the library might ask for holds a generated value (unset, 7, 4102444800, 1, 0, 5, yes, 2), so a mask taken from anywhere but the enabling call shows. Every case non-trivial.',
      required_classes={'any': ['default-state', 'create:accepted', 'create:refused', 'load:accepted', 'load:refused', 'decode_explicit:accepted', 'decode_explicit:refused', 'decode:accepted', 'decode:refused', 'reserved-kdf-bit', 'history>1', 're-injection-between-enabling-and-use', 'burst-of-enabling-calls', 'enabling-call-from-another-thread']},
      technique='exhaustive enumeration of (mask argument x feature value x entry point) + property-based histories of enabling calls against a feature-admission model',
      level_text='The finite core (27 enabling arguments x 32 feature values x 4 entry points) is enumerated completely on every run; histories of enabling calls and seed contents are sampled. Exploration with an exhaustive core.')
 
 prop('C11', src='props/c11_birthday.cpp',
      plan={'quick': [{'variant': 'asan', 'workers': 16}, {'variant': 'rel', 'workers': 16, 'scale': 0.5}], 'thorough': [{'variant': 'asan', 'workers': 16}, {'variant': 'rel', 'workers': 16}]},
-     variant_flags={'rel': {'cxxflags': '-DVERIF_WRAP', 'ldflags': '-Wl,--wrap=malloc,--wrap=free,--wrap=time'}},
-     rule='(1) exhaustive boundary set: EPOCH + k*STEP + {-1,0,+1} for k = 0..1024 (3075 clocks) and 17 special values (0, 1, EPOCH-1, 2^31 and 2^32 neighbours, 2^63, 2^64-2, 2^64-1, range end); (2) rapidcheck clocks (in-range, month boundaries +-2, before the epoch, beyond the range, uniform 64-bit) followed by a random chain of encode/decode, store/load, crypt, auto-decode; one case in eight uses a clock that answers t on the first reading and a failure value afterwards (the birthday must be that of a delivered reading); in the gcc -O2 build libc time() is interposed at link time (--wrap) and the same clock values are delivered through the built-in default clock (time entry NULL). '
+     variant_flags={'rel': {'cxxflags': '-DVERIF_WRAP', 'ldflags': WRAP_LD}},
+     rule='(1) exhaustive boundary set: EPOCH + k*STEP + {-1,0,+1} for k = 0..1024 (3075 clocks) and 17 special values (0, 1, EPOCH-1, 2^31 and 2^32 neighbours, 2^63, 2^64-2, 2^64-1, range end); (2) rapidcheck clocks (in-range, month boundaries +-2, before the epoch, beyond the range, uniform 64-bit) followed by a random chain of encode/decode, store/load, crypt, auto-decode; one case in eight uses a clock that answers t on the first reading and a failure value afterwards (the birthday must be that of a delivered reading); in the gcc -O2 build libc time() is interposed at link time (--wrap) and the same clock values are delivered through the built-in default clock (time entry NULL), with getenv interposed as well (every variable asked for holds a generated value, e.g. 4102444800). '
           'Oracle (validity predicate): B = EPOCH + k*2629746 with k in 0..1023; in range B <= t < B + STEP; before the epoch and for 2^64-1 B = EPOCH; for every t >= EPOCH B <= t; B unchanged along the chain. Distinct = (t, chain, language).',
      required_classes={'any': ['in-range', 'before-epoch', 'after-range', 'time-error-value', 'step:crypt', 'step:store/load', 'step:encode/decode', 'default-clock(libc time interposed)']},
      technique='property-based testing (rapidcheck) of a validity predicate over injected clock values + exhaustive enumeration of all 1025 month boundaries on both sides',
@@ -175,11 +178,12 @@ prop('C14', src='props/c14_safety.cpp', src_by_variant={'fuzz': 'fuzz/fuzz_api.c
      level_text='Sanitised, assertion-enabled builds are driven by coverage-guided fuzzing and a boundary-length grammar; every call is judged for memory safety, status range, input immutability and allocator balance. Exploration: no absence proof.')
 
 prop('C13', src='props/c13_model.cpp', engine='rapidcheck (stateful)',
-     plan={'quick': [{'variant': 'asan-nd', 'workers': 16}, {'variant': 'asan', 'workers': 16, 'part': 'exhaustive'}],
+     plan={'quick': [{'variant': 'asan-nd', 'workers': 16}, {'variant': 'asan', 'workers': 16, 'part': 'exhaustive'}, {'variant': 'rel', 'workers': 16, 'scale': 0.5}],
            'thorough': [{'variant': 'asan-nd', 'workers': 16}, {'variant': 'asan', 'workers': 16, 'scale': 0.3}, {'variant': 'rel', 'workers': 16}]},
+     variant_flags={'rel': {'cxxflags': '-DVERIF_WRAP', 'ldflags': WRAP_LD}},
      rule='stateful model-based testing: sequences (length <= 60 quick / <= 200 thorough) over 14 operations on 4 slots - inject(set A|B, optional entries present or NULL), enable_features, create, load(image of a slot | wrong check | wrong header | reserved bit | padding bit | fresh seed), decode / decode_explicit (phrase just encoded from a slot: same coin, other coin, other language, abbreviated, trailing space, 17 tokens, 15 tokens, unknown word; or fixed malformed strings), crypt (6 passwords incl. composed/decomposed pair), encode, store, keygen, queries, free, free(NULL), arm allocation failure - '
           'plus exhaustive enumeration of all 66429 sequences of length <= 5 over 9 fixed-argument operations. Oracle: abstract model (enabled mask, current dependency set, slot -> (secret, birthday, features)): every status, phrase, KDF argument list and query equals the model\'s; after every step each live seed\'s store image equals the model image (canonical; other slots untouched), '
-          'allocator ledger = live slots, no call lands in the non-current dependency set; fresh blocks are garbage-filled; the writable static storage that the library objects contribute to the executable (from the linker map, incl. thread-local sections) is snapshotted around every operation: only inject and enable_features may change it, any other call may write a byte once from zero (lazy initialisation) and never again. The output variables of create / load / decode start as NULL, as the dangling address of the seed freed last (which the recycling allocator hands out next), as another live seed or as a non-pointer; lang_out as NULL, each registered language or a non-pointer. Non-trivial = crypt followed by encode/store of that slot, or >= 2 live seeds, or a re-injection, or a failed constructor; distinct = fingerprint of the sequence.',
+          'allocator ledger = live slots, no call lands in the non-current dependency set; fresh blocks are garbage-filled; the writable static storage that the library objects contribute to the executable (from the linker map, incl. thread-local sections) is snapshotted around every operation: only inject and enable_features may change it, any other call may write a byte once from zero (lazy initialisation) and never again. The output variables of create / load / decode start as NULL, as the dangling address of the seed freed last (which the recycling allocator hands out next), as another live seed or as a non-pointer; lang_out as NULL, each registered language or a non-pointer. In the --wrap build (gcc -O2 -DNDEBUG; malloc, free, time, getenv, secure_getenv, rand, random, getrandom, getentropy, arc4random, clock_gettime, gettimeofday, fopen interposed at link time) the process environment is a generated input: while an API call is exercised every variable the library asks for holds one of {unset, 7, 4102444800, 1, 0, 5, yes, 2}, and a call to any of the interposed environment / randomness / clock functions is itself reported (the model has no such input). Non-trivial = crypt followed by encode/store of that slot, or >= 2 live seeds, or a re-injection, or a failed constructor; distinct = fingerprint of the sequence.',
      required_classes={'quick': ['seq:crypt-then-encode/store', 'seq:>=2-live-seeds', 'seq:re-injection', 'seq:failed-constructor', 'seq:allocation-failure-observed', 'decode:OK', 'decode:CHECKSUM', 'decode:MULT_LANG', 'decode_explicit:LANG', 'load:UNSUPPORTED', 'load:FORMAT', 'create:UNSUPPORTED'], 'thorough': ['seq:crypt-then-encode/store', 'seq:>=2-live-seeds', 'seq:re-injection', 'seq:failed-constructor']},
      technique='stateful model-based property testing (rapidcheck operation sequences against an abstract seed model, invariant after every step) + exhaustive enumeration of all short sequences',
      level_text='Random walks over the whole API are compared step by step with an abstract model, and every sequence of length <= 5 over a reduced alphabet is enumerated. Exploration of an unbounded history space.')
@@ -196,11 +200,11 @@ prop('C15', src='props/c15_alloc.cpp', engine='rapidcheck (stateful, fault injec
 
 prop('C18', src='props/c18_deps.cpp', engine='rapidcheck (stateful)',
      plan={'quick': [{'variant': 'asan-nd', 'workers': 16}, {'variant': 'rel', 'workers': 16}, {'variant': 'asan', 'workers': 16, 'scale': 0.03}], 'thorough': [{'variant': 'asan-nd', 'workers': 16}, {'variant': 'rel', 'workers': 16}, {'variant': 'asan', 'workers': 16, 'scale': 0.03}]},
-     variant_flags={'rel': {'cxxflags': '-DVERIF_WRAP', 'ldflags': '-Wl,--wrap=malloc,--wrap=free,--wrap=time'}},
+     variant_flags={'rel': {'cxxflags': '-DVERIF_WRAP', 'ldflags': WRAP_LD}},
      rule='(1) exhaustive: each of the 152 single-bit random-source outputs and their complements: the stored secret equals the delivered 19 bytes with the top two bits of the last dropped, 19 bytes are taken, the birthday is that of the injected clock; '
           '(2) rapidcheck injection histories: sequences in which about one operation in six is polyseed_inject with set A or B and each optional entry (time, alloc, free) present or NULL, the caller\'s struct overwritten with 0x41 right after the call, interleaved with create/load/decode/crypt/keygen/encode/free on 4 slots. '
           'Oracle: every dependency call during an operation lands in the set that is current (the other set\'s call counters do not move; the KDF of each set is keyed differently so a stale pointer also shows as a model mismatch); create takes 19 bytes in total from the current random source and asks the current clock; freed blocks are wiped; '
-          'in the --wrap build (gcc -O2 -DNDEBUG, malloc/free/time interposed at link time) libc malloc/free/time are called inside an API window exactly when the corresponding entry is NULL. Non-trivial = sequence contains an injection; distinct = fingerprint of the sequence.',
+          'in the --wrap build (gcc -O2 -DNDEBUG, malloc/free/time interposed at link time) libc malloc/free/time are called inside an API window exactly when the corresponding entry is NULL; getenv, secure_getenv, rand, random, getrandom, getentropy, arc4random, clock_gettime, gettimeofday and fopen are interposed too - a call to any of them during an API call is reported (no other source of randomness, time or configuration is consulted), and getenv answers a generated value for every name. Non-trivial = sequence contains an injection; distinct = fingerprint of the sequence.',
      required_classes={'any': ['single-bit-random-output', 'pairwise-entry-replacement', 'random-source-writes-nothing', 'seq:re-injection-to-other-set', 'inject:opt=7', 'inject:opt=1', 'op:create', 'op:crypt']},
      assumptions=['with the time entry NULL the birthday is compared with the host clock (+-1 month)'],
      technique='stateful property-based testing of injection histories (rapidcheck) with recording dependency sets A/B and link-time interposition of libc malloc/free/time; exhaustive single-bit random outputs',
